@@ -14,7 +14,27 @@ STAGES = {
     ],
 }
 
+STAGES["C10"] = [
+    dict(name="tree", pkg="z", test="TestVf_C10", replay_test="TestVfReplay_C10",
+         quick=(3000, 1), thorough=(30000, 16), crash_is_violation=True),
+]
+STAGES["C16"] = [
+    dict(name="ptree", pkg="z", test="TestVf_C16", replay_test="TestVfReplay_C16",
+         quick=(800, 1), thorough=(4000, 16), crash_is_violation=True),
+]
+
 RULES = {
+    "C10": "rapid state machine over z.Tree against map[uint64]uint64: per case a page size (4..255 keys per page, biased to 4..9), "
+           "1..90 ops from Set/Get/DeleteBelow/IterateKV/rewriting IterateKV/Reset/ascending-descending runs/(rarely) a bulk insert "
+           "that outgrows the 1 MiB buffer; keys dense, random 64-bit, neighbours of live keys, boundaries 1,2,2^64-4..2^64-2; values "
+           "1..16, random, 2^64-1; thresholds 0,1,2^64-1, v and v+1 of live values. Oracle: Get of touched keys and neighbours after each op, "
+           "Get of every key ever used + IterateKV multiset + page-structure invariant after DeleteBelow/rewrite/Reset/end. Non-trivial: "
+           "tree reached >=3 levels or >=8 pages AND a DeleteBelow removed >=1 and kept >=1 key AND a page was recycled AND a later Set "
+           "reused a free page; distinct = FNV hash of (page size, op list).",
+    "C16": "as C10 on NewTreePersistent in a per-case file with page sizes 128..4096 (power of two) plus a Reopen op (Close; "
+           "NewTreePersistent) anywhere; after Reopen: Stats equal except Allocated, full Get/IterateKV agreement with the model, "
+           "page-structure invariant (free list acyclic, length NumPagesFree, disjoint from reachable, union = all pages). Non-trivial: "
+           ">=1 Reopen with >=2 free pages and a later Set that consumed a free page; distinct = FNV hash of (page size, op list).",
     "C20": "rapid generator: even length 0..520 (biased to small and to 8-word block edges), offset 0..9 in a backing "
            "array with 8..17 adversarial words behind the slice, ascending keys (dense/sparse/saturating/duplicates), "
            "k from {0, 2^64-1, key, key+-1, beyond last key, random}; oracle Search == Naive == local loop and equal "
